@@ -3,15 +3,24 @@
      rule = ( cls (child ...) eqv (shift ...) tag (member ...) )
             member = ( cls (child ...) eqv (shift ...) tag ) ; no members = not an EquivalencePathRule
             (for a path rule only its members are read)
-   output: ( status (entry ...) (label_class ...) (entry ...) wf )
+   output: ( status (entry ...) (label_class ...) (entry ...) wf shifts_ok (key ...) (key ...) same )
      status 0 fine, 1..7 the exception (xerr), 9 the grouping loop did not finish, -1 nothing to do
      entry  = ( cls kind tag (child ...) ((member_cls member_tag (member_child ...)) ...) )
               kind 0 plain rule, 1 EquivalencePathRule, 2 lazily added empty rule
      label_class: the classes in the order _enforce_labels hands out labels
      second entry list: rules_dict after _ungroup_equiv_path() on the finished object
-     wf: the hypotheses of the C02 grouping theorems hold for this input (wf_inputb) *)
+     wf: the hypotheses of the C02 grouping theorems hold for this input (wf_inputb)
+     added later (fields 5..8; the first five are unchanged):
+     shifts_ok: every rule of the ungrouped input declares one shift per child (shifts_okb, the third premise
+             of C02_grouping_preserves_productivity)
+     first key list : R1 of the finished object's rules_dict - forest keys ( parent ((child shift) ...) ), an
+             EquivalencePathRule counted with the SUM of its members' shifts
+     second key list: R0 = keys of the ungrouped input and of the lazily added empty rules
+     same: the finished rules_dict has as many entries as the dictionary _group_equiv_in_path left, i.e. IS
+             that dictionary (Spec/GroupingProdObj.v ext_same_length); with wf, shifts_ok and status 0 the two
+             key lists are then an instance of the productivity theorem (object_keys_pump_iff) *)
 From Coq Require Import ZArith List Bool.
-From CSS Require Import Base.Sx Spec.Grouping Spec.GroupingWf.
+From CSS Require Import Base.Sx Forest.Spec Spec.Grouping Spec.GroupingWf Spec.GroupingProdKeys.
 Import ListNotations.
 Open Scope Z_scope.
 
@@ -41,20 +50,27 @@ Definition xerr_code (e : xerr) : Z :=
   | XAssertValid => 5 | XKey => 6 | XIndex => 7
   end.
 
+Definition enc_fkey (k : fkey) : sx :=
+  L [of_nat (parent k); L (map (fun p => L [of_nat (fst p); I (snd p)]) (Forest.Spec.kids k))].
+
 Definition run_spec (a : sx) : sx :=
   match sx_list a with
-  | [] => L [I (-1); L []; L []; L []; I 0]
+  | [] => L [I (-1); L []; L []; L []; I 0; I 0; L []; L []; I 0]
   | _ =>
       let root := sx_nat (sx_nth a 0) in
       let ge := sx_bool (sx_nth a 1) in
       let empties := sx_nats (sx_nth a 2) in
       let is_empty := fun c => mem c empties in
       let rules := map dec_grule (sx_list (sx_nth a 3)) in
-      let wf := of_bool (wf_inputb is_empty root (ungroup (rules_dict rules))) in
+      let d0 := ungroup (rules_dict rules) in
+      let wf := of_bool (wf_inputb is_empty root d0) in
+      let sok := of_bool (shifts_okb d0) in
       match spec_init is_empty root rules ge with
       | XOk s => L [I 0; L (map enc_entry (sp_rules s)); of_nats (sp_labels s);
-                    L (map enc_entry (ungroup (sp_rules s))); wf]
-      | XErr e => L [I (xerr_code e); L []; L []; L []; wf]
-      | XFuel => L [I 9; L []; L []; L []; wf]
+                    L (map enc_entry (ungroup (sp_rules s))); wf; sok;
+                    L (map enc_fkey (R1 (sp_rules s))); L (map enc_fkey (R0 d0 (sp_rules s)));
+                    of_bool (same_dictb is_empty root rules ge (sp_rules s))]
+      | XErr e => L [I (xerr_code e); L []; L []; L []; wf; sok; L []; L []; I 0]
+      | XFuel => L [I 9; L []; L []; L []; wf; sok; L []; L []; I 0]
       end
   end.
